@@ -1,2 +1,104 @@
-(* C12 - placeholder while the proofs are being built *)
-From MafVerif Require Import lib.Base model.Overlap.
+(* C12 - Allele-aware overlap iteration returns exactly the allele-compatible
+   records.  Property theorems only; proofs are in proofs/OverlapAllele.v.
+   The positional groups themselves are the subject of C11. *)
+From Coq Require Import Permutation.
+From MafVerif Require Import lib.Base model.Overlap spec.SpecOverlap
+     proofs.OverlapStreamFacts proofs.OverlapAllele.
+
+Notation o_should_add t := (should_add oref oalts t).
+Notation o_accepted t := (accepted oref oalts (rel_of t)).
+Notation o_partition t := (partition_first rtruthy oref oalts t []).
+Notation o_expand t := (expand oref oalts t).
+Notation o_atake c t := (atake rtruthy ccls_cmp ccls_eqb (okey c) oref oalts t).
+
+(* the three relations are =, "share an allele or are equal", "other is
+   contained in base", on lists of alleles *)
+Theorem C12_relations_characterised :
+  forall t base other, compare_by t base other = true <-> rel (rel_of t) base other.
+Proof. exact compare_by_spec. Qed.
+Print Assumptions C12_relations_characterised.
+
+(* the test applied to a record against a class: same reference allele and the
+   selected relation with some member of the class *)
+Theorem C12_test_is_compatibility_with_some_member :
+  forall t items other, o_should_add t items other = true <-> o_accepted t items other.
+Proof. intros t. exact (should_add_spec oref oalts t). Qed.
+Print Assumptions C12_test_is_compatibility_with_some_member.
+
+(* the first slot of a positional group is split greedily (spec.SpecOverlap.greedy):
+   every record exactly once (permutation), every class non-empty and an
+   order-preserving sub-list of the slot; a joining record was accepted by its
+   class as it stood and refused by all earlier classes, a founder was refused
+   by every class existing at that moment *)
+Theorem C12_first_slot_is_partitioned_greedily :
+  forall t s0, Forall (fun x => rtruthy x = true) s0 ->
+    let classes := o_partition t s0 in
+    greedy oref oalts (rel_of t) [] s0 classes /\
+    Permutation (concat classes) s0 /\
+    Forall (fun c => c <> [] /\ subseq c s0) classes /\
+    (s0 <> [] -> classes <> []).
+Proof. intros t. exact (partition_first_spec rtruthy oref oalts t). Qed.
+Print Assumptions C12_first_slot_is_partitioned_greedily.
+
+(* one positional group g with a non-empty first slot is returned as exactly
+   one allele group per class c of its first slot, in order of creation:
+   [c; filter (accepted by c) g[1]; filter (accepted by c) g[2]; ...];
+   afterwards the iterator turns to the next positional group *)
+Theorem C12_positional_group_is_emitted_class_by_class :
+  forall c t st ins' g,
+    items_falsy (a_items st) = true ->
+    first_nonempty rtruthy ccls_cmp ccls_eqb (okey c) (S (remaining (a_ins st))) (a_ins st) = (ins', Done g) ->
+    Forall (fun x => rtruthy x = true) (hd [] g) ->
+    let classes := o_partition t (hd [] g) in
+    o_atake c t (length classes) st
+    = (map (fun cl => Done (o_expand t (tl g) cl)) classes,
+       {| a_ins := ins'; a_items := Some []; a_others := tl g |}).
+Proof. intros c t. exact (allele_group_emission rtruthy ccls_cmp ccls_eqb (okey c) oref oalts t). Qed.
+Print Assumptions C12_positional_group_is_emitted_class_by_class.
+
+(* the slots of the other inputs: nothing that fails the test is returned and
+   nothing that passes it is omitted (and the order of the slot is kept) *)
+Theorem C12_other_slots_are_filtered_exactly :
+  forall t others cl,
+    o_expand t others cl = cl :: map (filter (o_should_add t cl)) others /\
+    forall slot x, In x (filter (o_should_add t cl) slot) <-> In x slot /\ o_accepted t cl x.
+Proof.
+  intros t others cl. split; [reflexivity|]. intros slot x.
+  rewrite filter_In. rewrite (should_add_spec oref oalts t). reflexivity.
+Qed.
+Print Assumptions C12_other_slots_are_filtered_exactly.
+
+(* positional groups whose first slot is empty produce nothing: the group the
+   allele-aware iterator works on is the first one, in the underlying
+   iteration, whose first slot is non-empty *)
+Theorem C12_groups_with_empty_first_slot_are_skipped :
+  forall c fuel ins ins' g,
+    first_nonempty rtruthy ccls_cmp ccls_eqb (okey c) fuel ins = (ins', Done g) ->
+    hd [] g <> [] /\
+    exists skipped mid,
+      run_ok rtruthy ccls_cmp ccls_eqb (okey c) ins skipped mid /\
+      Forall (fun g' => g' <> [] /\ hd [] g' = []) skipped /\
+      o_next_group c mid = (ins', Done g).
+Proof. intros c. exact (first_nonempty_spec rtruthy ccls_cmp ccls_eqb (okey c)). Qed.
+Print Assumptions C12_groups_with_empty_first_slot_are_skipped.
+
+(* ---------------- non-vacuity ---------------- *)
+Definition al (i s e : Z) (r : N) (alts : list N) : orec :=
+  {| rid := i; rtruthy := true; rtumor := []; rnormal := []; rchr := [99%N]; rstart := s; rend := e;
+     oref := [r]; oalts := map (fun a => [a]) alts |}.
+Definition demo_cfg : cfg := {| by_barcodes := false; contigs := [] |}.
+(* first input: A>C, A>G, A>C,G, C>C at one locus; second input: A>G,C  A>()  A>C (pos 6)  and a far record *)
+Definition demo_inputs : list (list orec) :=
+  [[al 0 5 5 65 [67]; al 1 5 5 65 [71]; al 2 5 6 65 [67; 71]; al 3 5 7 67 [67]];
+   [al 4 5 5 65 [71; 67]; al 5 5 5 65 []; al 6 6 6 65 [67]; al 7 20 21 65 [67]]]%N.
+Definition ids (o : outcome (list (list (list orec)))) : list (list (list Z)) :=
+  match o with Done gs => map (map (map rid)) gs | _ => [[[-1]]] end.
+Example demo_equality :
+  ids (o_allele_iter demo_cfg Equality demo_inputs) = [[[0]; [6]]; [[1]; []]; [[2]; []]; [[3]; []]].
+Proof. vm_compute. reflexivity. Qed.
+Example demo_intersects :
+  ids (o_allele_iter demo_cfg Intersects demo_inputs) = [[[0; 2]; [4; 6]]; [[1]; [4]]; [[3]; []]].
+Proof. vm_compute. reflexivity. Qed.
+Example demo_subset :
+  ids (o_allele_iter demo_cfg Subset demo_inputs) = [[[0]; [5; 6]]; [[1]; [5]]; [[2]; [4; 5; 6]]; [[3]; []]].
+Proof. vm_compute. reflexivity. Qed.
